@@ -2,7 +2,8 @@
 Load.Basic — names, directories and ordered variable maps of the loader model.
 
 Names are byte strings written as `List Nat` (`58` is the namespace separator `:`),
-so `taskNameWithNamespace` (taskfile/ast/tasks.go) is mirrored character for character.
+so `taskNameWithNamespace`, `taskRefWithNamespace` and the `TrimPrefix` of
+`ResolveRootRefs` (taskfile/ast/tasks.go) are mirrored character for character.
 Directories are segment lists, either anchored at the root of the tree (`abs`) or still
 relative; ordered maps (`ast.Vars`, elliotchance/orderedmap) are association lists whose
 `set` keeps the position of an existing key.
@@ -23,6 +24,20 @@ def withNs (n ns : Name) : Name :=
   match n with
   | [] => ns ++ [colon]
   | c :: r => if c = colon then r else ns ++ colon :: c :: r
+
+/-- `taskRefWithNamespace(taskName, namespace)` — the renaming of a dependency or `task:`
+target by one merge: a reference to a task of the ROOT Taskfile (leading `:`) is left as
+it is, so it survives any number of merges; anything else is renamed like a task name. -/
+def refWithNs (n ns : Name) : Name :=
+  match n with
+  | [] => withNs [] ns
+  | c :: r => if c = colon then c :: r else withNs (c :: r) ns
+
+/-- `strings.TrimPrefix(ref, ":")` — what `Tasks.ResolveRootRefs` does to every dependency
+and `task:` target of the merged root table, once, after all merges. -/
+def resolveRootRef : Name → Name
+  | [] => []
+  | c :: r => if c = colon then r else c :: r
 
 /-- `fmt.Sprintf("%s:default", ns)` -/
 def nsDefault (ns : Name) : Name := ns ++ colon :: defaultName
